@@ -3,6 +3,7 @@ package c09
 
 import (
 	"fmt"
+	"google.golang.org/protobuf/proto"
 	"sort"
 	"time"
 
@@ -194,6 +195,14 @@ func Lists(thorough bool, variant string) []gen.ListSpec {
 }
 
 func Run(c *engine.Ctx) {
+	// first, because it is small: a later group that exhausts the memory cap must not keep it from running
+	AfterEditGroup(c, "Union", AfterEditLists(), func(a, b *sbom.NodeList) *sbom.NodeList { return a.Union(b) })
+	AfterEditGroup(c, "Add", AfterEditLists(), func(a, b *sbom.NodeList) *sbom.NodeList {
+		r := proto.Clone(a).(*sbom.NodeList)
+		_ = a.Copy() // a copy is also a call that may remember things about the receiver
+		r.Add(b)
+		return r
+	})
 	L := Lists(c.Thorough(), "pairs")
 	c.Group("pairs")
 	c.Bound("pairs", fmt.Sprintf("all %d x %d ordered pairs of list specs (ids a,b,c; <=1 edge object of <=2 targets over 2 types, plus 2-object lists per (source,type); all root subsets; ill-formed included)", len(L), len(L)))
